@@ -34,7 +34,7 @@ use domain::net::client::request::{
 };
 use domain::rdata::dnssec::Timestamp;
 use domain::rdata::nsec3::{Nsec3Salt, OwnerHash};
-use domain::rdata::{Cname, Dnskey, Ds, Ns, Nsec3, Nsec3param, Soa, ZoneRecordData, A};
+use domain::rdata::{Cname, Dname, Dnskey, Ds, Ns, Nsec3, Nsec3param, Soa, ZoneRecordData, A};
 use serde_json::{json, Value};
 use std::collections::HashMap;
 use std::future::Future;
@@ -490,6 +490,8 @@ fn leaf_content(apex: &N) -> Vec<Rec> {
         rec(&sub("loop1", apex), D::Cname(Cname::new(sub("loop2", apex)))),
         rec(&sub("loop2", apex), D::Cname(Cname::new(sub("loop1", apex)))),
         a(&sub("deep.ent", apex), "192.0.2.3"),
+        rec(&sub("dn", apex), D::Dname(Dname::new(sub("tgt", apex)))),
+        a(&sub("host.tgt", apex), "192.0.2.5"),
     ]
 }
 
@@ -518,8 +520,10 @@ impl World {
         let mut zones: Vec<Zone> = Vec::new();
         let z_other = Zone::build("other", other.clone(), Some("tld"), true, denial,
             vec![a(&sub("www", &other), "192.0.2.9")], now);
+        let leaf_apex = if four { subz.clone() } else { zone.clone() };
         let z_plain = Zone::build("plain", plain.clone(), Some("tld"), false, denial,
-            vec![a(&sub("www", &plain), "192.0.2.66")], now);
+            vec![a(&sub("www", &plain), "192.0.2.66"),
+                 rec(&sub("dn", &plain), D::Dname(Dname::new(leaf_apex)))], now);
         let mut z_sub = None;
         let z_zone;
         if four {
@@ -623,6 +627,45 @@ impl World {
             if z.exists_or_ent(&name) {
                 z.nodata(&name, &mut sets);
                 break;
+            }
+            // a DNAME at an ancestor (RFC 6672): the DNAME RRset and the
+            // synthesized, unsigned CNAME; continue at the target
+            let mut dn_owner: Option<N> = None;
+            let mut cur = name.clone();
+            while cur.label_count() > z.apex.label_count() {
+                cur = cur.parent().unwrap().to_name::<Bytes>();
+                if !z.rrset(&cur, Rtype::DNAME).is_empty() {
+                    dn_owner = Some(cur.clone());
+                    break;
+                }
+            }
+            if let Some(o) = dn_owner {
+                let dn = z.rrset(&o, Rtype::DNAME);
+                let tgt = match dn[0].data() {
+                    D::Dname(d) => d.dname().clone(),
+                    _ => unreachable!(),
+                };
+                let mut labels: Vec<String> = Vec::new();
+                let mut c = name.clone();
+                while c.label_count() > o.label_count() {
+                    labels.push(format!("{}", c.first()));
+                    c = c.parent().unwrap().to_name::<Bytes>();
+                }
+                let new_name = sub(&labels.join("."), &tgt);
+                let mut set = z.with_sigs("dname", 0, dn);
+                sets.push({ set.sec = 0; set });
+                sets.push(RRs {
+                    role: "dcname".into(),
+                    sec: 0,
+                    recs: vec![rec(&name, D::Cname(Cname::new(new_name.clone())))],
+                    sigs: vec![],
+                });
+                hops += 1;
+                if hops >= 4 {
+                    break;
+                }
+                name = new_name;
+                continue;
             }
             // the name does not exist: wildcard or NXDOMAIN
             let (ce, proofs) = z.nx_proofs(&name);
@@ -813,6 +856,39 @@ pub fn apply(w: &World, resp: &mut Resp, st: &AdvStep) {
                         }
                     }
                     let sig = sign_set(&k, &resp.sets[i].recs, w.now - 3600, w.now + day);
+                    resp.sets[i].sigs = vec![sig];
+                }
+            }
+        }
+        a if a.starts_with("AddBadSig") => {
+            // n extra RRSIGs by the right key that do not verify (expired),
+            // before or after the genuine one: "AddBadSig<n><First|Last>"
+            let n: u32 = a[9..10].parse().unwrap_or(1);
+            let first = a.ends_with("First");
+            if let Some(i) = idx {
+                if let Some(z) = signer_zone(w, &resp.sets[i]) {
+                    let k = z.key.as_ref().unwrap();
+                    let mut bad = Vec::new();
+                    for j in 0..n {
+                        bad.push(sign_set(k, &resp.sets[i].recs, w.now - (3 + j) * day,
+                                          w.now - (2 + j) * day));
+                    }
+                    let good = std::mem::take(&mut resp.sets[i].sigs);
+                    resp.sets[i].sigs = if first {
+                        bad.into_iter().chain(good).collect()
+                    } else {
+                        good.into_iter().chain(bad).collect()
+                    };
+                }
+            }
+        }
+        "SerialInception" => {
+            // RFC 4034 3.1.5 / RFC 1982: inception just below 2^32 is "in the
+            // past" in serial-number arithmetic
+            if let Some(i) = idx {
+                if let Some(z) = signer_zone(w, &resp.sets[i]) {
+                    let k = z.key.as_ref().unwrap();
+                    let sig = sign_set(k, &resp.sets[i].recs, 0xFFFF_0000, w.now + day);
                     resp.sets[i].sigs = vec![sig];
                 }
             }
@@ -1064,6 +1140,8 @@ pub fn question(w: &World, qk: &str, plan: &[AdvStep]) -> (N, Rtype) {
         "cname1" => (sub("alias", leaf), Rtype::A),
         "cname2" => (sub("alias2", leaf), Rtype::A),
         "ds" => (leaf.clone(), Rtype::DS),
+        "dname" => (sub("host.dn", leaf), Rtype::A),
+        "dnamex" => (sub("www.dn", &w.zone("plain").apex), Rtype::A),
         _ => panic!("qk {}", qk),
     }
 }
